@@ -34,6 +34,16 @@ CLAIMS={
    design="§3 C12, §2 R1/R3/R6",
    note="Trusted: go/types+go/ssa; bank keeper. Known finding F-12a (UncommitTokens adds to TotalCommitted) listed in known_findings.json, cannot be repaired without editing two masterchef tests that pin the defective value.",
    technique="static analysis: symbolic delta cancellation over go/ssa, helper body-shape checks, must-hold facts, interprocedural constant flow of a bool parameter over the call graph"),
+ "C01":dict(
+   text="Two linear invariants decided over every consensus-reachable function: (I1) bank balance at an AMM pool address − pool book = 0 and (I2) pool book − chain-wide DenomLiquidity = 0. Bank transfers are classified by address provenance (Pool.GetAddress()/Pool.Address through bech32 conversion); book updates are the resolved calls of Pool.IncreaseLiquidity/DecreaseLiquidity, the …AndUpdateLiquidity keeper helpers and Pool.JoinPool/ExitPool results; DenomLiquidity the RecordTotalLiquidity* calls. Deltas on the same success paths must cancel symbolically; helper functions are accounted at their call sites and their declared effect is verified against their own body. Also decided: zero share arguments at the six back-door call sites, CreatePool's book/transfer/DenomLiquidity all derive from the same message's PoolAssets, MatchAmmBalances is upgrade-only, and a pool record handed to a persisting callee is fresh. Third-party sends and numeric correctness of the amounts are not covered; the set-to idiom of processExitPool is decided under C05.",
+   design="§3 C01, §2 R1/R4/R6",
+   note="Trusted: go/types+go/ssa; bank keeper; by-value copies of ammtypes.Pool share the PoolAssets backing array (DESIGN §2 R6).",
+   technique="static analysis: symbolic delta cancellation with helper-effect summaries verified against bodies, address provenance slices, reachability over repo-CHA call graph"),
+ "C02":dict(
+   text="Share accounting as linear invariants over every consensus-reachable function: (S1) minted supply of a share denom − Pool.TotalShares = 0 and (S2) minted supply − committed shares = 0. Mint/Burn are classified by denom provenance (GetPoolShareDenom / stablestake GetShareDenom); TotalShares moves through Pool.IncreaseLiquidity/DecreaseLiquidity, Pool.JoinPool's shares result and Pool.ExitPool's share argument; commitments through CommitLiquidTokens/UncommitTokens with a share-denom argument. Helper effects (MintPoolShareToAccount mints and commits exactly amount; BurnPoolShareFromAccount burns exactly amount; Apply{Join,Exit}PoolStateChange) are declared and verified against their bodies. Also: every consensus caller of commitment UncommitTokens either burns the uncommitted shares on every success path or is reached only with denom == Eden/EdenB on every path; uncommit dominates burn; InitializePool mints the TotalShares it set. Σ over accounts is not decided.",
+   design="§3 C02, §2 R1/R4",
+   note="Trusted: go/types+go/ssa; bank keeper; commitment ledger itself is C12.",
+   technique="static analysis: symbolic delta cancellation, denom provenance, acyclic path enumeration for the disjunctive denom guard"),
 }
 NA={}
 checks=[]
